@@ -2248,3 +2248,201 @@ func ruleC16de(c *Ctx, r *Report) {
 		r.viol("MP-C16e", rn, "always-replaces-args", c.Pos(reset.Pos()), "ResetParams can return without clearing the bound arguments: values (e.g. long data) survive a reset or a failed execution", c.pathStrings(exits[0])...)
 	}
 }
+
+// ruleC20d (MP-C20d): a backend connection object that was marked closed is never revived with its cached session
+// state: every write of DirectConnection.closed stores true, unless the same function also replaces the cached
+// sessionVariables (a reconnect gives a brand-new backend session with server defaults; an object that comes back to the
+// pool as healthy with the previous session's cached variables/charset makes the next client skip its SET).
+func init() { register("C20", "", ruleC20d) }
+
+func ruleC20d(c *Ctx, r *Report) {
+	const rule = "MP-C20d"
+	r.floor(rule, 1)
+	fClosed := c.Field("backend", "DirectConnection", "closed")
+	fVars := c.Field("backend", "DirectConnection", "sessionVariables")
+	if fClosed == nil || fVars == nil {
+		r.undecided(rule, "backend.DirectConnection", "anchor", "-", "fields closed / sessionVariables not found")
+		return
+	}
+	n := 0
+	for _, fn := range c.Funcs {
+		if c.IsMockFunc(fn) {
+			continue
+		}
+		k := 0
+		allInstrs(fn, func(in ssa.Instruction) {
+			cc := callCommon(in)
+			if cc == nil {
+				return
+			}
+			f := staticCallee(cc)
+			if f == nil || f.Signature.Recv() == nil || len(cc.Args) < 2 {
+				return
+			}
+			if f.Name() != "Set" && f.Name() != "CompareAndSwap" && f.Name() != "Store" {
+				return
+			}
+			fa, ok := stripValue(cc.Args[0]).(*ssa.FieldAddr)
+			if !ok || fieldOfAddr(fa) != fClosed {
+				return
+			}
+			n++
+			k++
+			cons := fmt.Sprintf("closed-write@%d", k)
+			newVal := cc.Args[len(cc.Args)-1]
+			if b, ok := constBool(newVal); ok && b {
+				r.ok(rule, c.FuncName(fn), cons, c.Pos(in.Pos()), "marks the connection closed")
+				return
+			}
+			// revival: acceptable only together with a fresh session-variable record
+			fresh := false
+			allInstrs(fn, func(in2 ssa.Instruction) {
+				if st, ok := in2.(*ssa.Store); ok && fieldOfAddr(st.Addr) == fVars {
+					fresh = true
+				}
+			})
+			if fresh {
+				r.ok(rule, c.FuncName(fn), cons, c.Pos(in.Pos()), "the object is reopened together with a new session-variable record")
+			} else {
+				r.viol(rule, c.FuncName(fn), cons, c.Pos(in.Pos()), "a closed connection object is marked usable again while it keeps the cached session variables/charset of its previous backend session: after the reconnect the backend has server defaults, the pool believes the previous client's settings are applied, and the next client's SET is skipped")
+			}
+		})
+	}
+	if n == 0 {
+		r.undecided(rule, "backend.DirectConnection", "closed-writes", "-", "no write of the closed flag found")
+	}
+}
+
+// ruleC39d (PC5d): the first of several per-statement results is never handed on alone. In proxy/plan every return of
+// xs[0] for a []*mysql.Result xs is (i) dominated by len(xs)==1, or (ii) dominated by the plan's single-routed-index
+// predicate (a method whose body is len(<route result>.indexes)==1: one routed index -> one statement -> one result),
+// or (iii) reached after a loop that folds the other elements into xs[0].
+func init() { register("C39", "", ruleC39d) }
+
+func ruleC39d(c *Ctx, r *Report) {
+	const rule = "PC5d"
+	r.floor(rule, 3)
+	fIndexes := c.Field(planRel, "RouteResult", "indexes")
+	resT := c.NamedType("mysql", "Result")
+	if fIndexes == nil || resT == nil {
+		r.undecided(rule, planRel, "anchor", "-", "RouteResult.indexes / mysql.Result not found")
+		return
+	}
+	isResultSlice := func(t types.Type) bool {
+		s, ok := t.Underlying().(*types.Slice)
+		if !ok {
+			return false
+		}
+		p, ok := s.Elem().Underlying().(*types.Pointer)
+		return ok && namedOf(p.Elem()) == resT
+	}
+	// single-index predicates: methods returning len(x.indexes) == 1
+	single := map[*ssa.Function]bool{}
+	for _, fn := range c.Funcs {
+		if fn.Pkg == nil || !strings.HasSuffix(fn.Pkg.Pkg.Path(), planRel) || len(fn.Blocks) != 1 {
+			continue
+		}
+		for _, ret := range returnsOf(fn) {
+			if len(ret.Results) != 1 {
+				continue
+			}
+			b, ok := stripValue(ret.Results[0]).(*ssa.BinOp)
+			if !ok || b.Op != token.EQL {
+				continue
+			}
+			if k, ok := constInt(b.Y); !ok || k != 1 {
+				continue
+			}
+			if l, ok := stripValue(b.X).(*ssa.Call); ok {
+				if bi, ok := l.Call.Value.(*ssa.Builtin); ok && bi.Name() == "len" && loadedField(l.Call.Args[0]) == fIndexes {
+					single[fn] = true
+				}
+			}
+		}
+	}
+	n := 0
+	for _, fn := range c.Funcs {
+		if fn.Pkg == nil || !strings.HasSuffix(fn.Pkg.Pkg.Path(), planRel) || c.IsMockFunc(fn) {
+			continue
+		}
+		k := 0
+		for _, ret := range returnsOf(fn) {
+			if len(ret.Results) == 0 {
+				continue
+			}
+			vals, zero := retValues(ret, 0)
+			if zero {
+				continue
+			}
+			for _, v := range vals {
+				u, ok := stripValue(resolveLoad(stripValue(v))).(*ssa.UnOp)
+				if !ok || u.Op != token.MUL {
+					continue
+				}
+				ia, ok := u.X.(*ssa.IndexAddr)
+				if !ok || !isResultSlice(ia.X.Type()) {
+					continue
+				}
+				if idx, ok := constInt(ia.Index); !ok || idx != 0 {
+					continue
+				}
+				xs := stripValue(ia.X)
+				n++
+				k++
+				cons := fmt.Sprintf("first-result-return#%d", k)
+				name := c.FuncName(fn)
+				good, why := false, ""
+				// (i) len(xs) == 1
+				allInstrs(fn, func(in ssa.Instruction) {
+					b, ok := in.(*ssa.BinOp)
+					if !ok || b.Op != token.EQL {
+						return
+					}
+					if kk, ok := constInt(b.Y); !ok || kk != 1 {
+						return
+					}
+					if l, ok := stripValue(b.X).(*ssa.Call); ok {
+						if bi, ok := l.Call.Value.(*ssa.Builtin); ok && bi.Name() == "len" && sameVal(l.Call.Args[0], xs) && dominatedByCond(ret, b, true) {
+							good, why = true, "dominated by len(results)==1"
+						}
+					}
+				})
+				// (ii) single-index predicate
+				if !good {
+					allInstrs(fn, func(in ssa.Instruction) {
+						call, ok := in.(*ssa.Call)
+						if !ok {
+							return
+						}
+						if f := staticCallee(&call.Call); f != nil && single[f] && dominatedByCond(ret, call, true) {
+							good, why = true, "dominated by "+f.Name()+"() (one routed index, hence one statement and one result)"
+						}
+					})
+				}
+				// (iii) after a folding loop
+				if !good {
+					allInstrs(fn, func(in ssa.Instruction) {
+						ia2, ok := in.(*ssa.IndexAddr)
+						if !ok || !sameVal(ia2.X, xs) {
+							return
+						}
+						if _, isConst := constInt(ia2.Index); isConst {
+							return
+						}
+						if blockReachable(ia2.Block(), ret.Block()) && blockReachable(ia2.Block(), ia2.Block()) {
+							good, why = true, "returned after the loop that folds the other results into the first"
+						}
+					})
+				}
+				if good {
+					r.ok(rule, name, cons, c.Pos(ret.Pos()), "results[0] is "+why)
+				} else {
+					r.viol(rule, name, cons, c.Pos(ret.Pos()), "results[0] is returned alone where several per-statement results can exist (no len(results)==1 guard, no single-routed-index guard, no merge loop): the rows of the other sub-tables are silently dropped")
+				}
+			}
+		}
+	}
+	if n == 0 {
+		r.undecided(rule, planRel, "first-result-returns", "-", "no return of results[0] found")
+	}
+}
